@@ -176,14 +176,19 @@ impl Vm {
             self.pop_roots(1);
 
             let module = self.module(&module_name, &path);
-            if let Err(err) = parent_module.insert_module(module) {
-              match err {
-                ModuleInsertError::ModuleAlreadyExists => todo!(),
-              }
-            }
 
             match self.compile(false, module, &source, file_id) {
-              Ok(fun) => ImportResult::Compiled(fun),
+              Ok(fun) => {
+                // a module joins its parent once it has compiled. A failed attempt
+                // leaves nothing behind that a later import could find
+                if let Err(err) = parent_module.insert_module(module) {
+                  match err {
+                    ModuleInsertError::ModuleAlreadyExists => todo!(),
+                  }
+                }
+
+                ImportResult::Compiled(fun)
+              },
               Err(errors) => {
                 let mut stdio = self.io.stdio();
                 let stderr_color = stdio.stderr_color();
